@@ -25,8 +25,8 @@ ENGINE = {
            "variables, rebinding built-ins)",
     "C04": "loop nests x exit insertions (0,1,2) x wrappers; if chains; "
            "iteration order; comprehensions vs explicit loops (reference and "
-           "source-level differential incl. effects); mutate-then-iterate; "
-           "stray exits",
+           "source-level differential incl. effects, all selectors, default "
+           "selector against the named one); mutate-then-iterate; stray exits",
     "C05": "frame chains (32 frame kinds incl. loops over every iterable, "
            "callbacks, eval) x injections (20 kinds) at every slot, 0/1/2 "
            "injections; reference + finally-once invariant",
@@ -36,8 +36,10 @@ ENGINE = {
     "C07": "per-kind pools: all pairs/triples; sorted on all lists <=5|7 "
            "over 6 tagged elements x 5 call variants; enumeration orders; "
            "min/max plain and through key functions",
-    "C08": "data values to depth 3 + all insertion orders of <=4|5 subsets "
-           "of a 16-value mixed pool",
+    "C08": "data values to depth 3 (incl. strings that spell a token) + all "
+           "insertion orders of <=4|5 subsets of a 16-value mixed pool + "
+           "every data value returned by the library call sweep (arity <= 2, "
+           "pool extended by numbers beyond the float mantissa)",
     "C09": "audit-hook seam; natives x alias x contexts; flag programs "
            "(plain, compound, destructuring) also under host-supplied "
            "environments; non-secure world created before and after; BFS "
@@ -46,15 +48,20 @@ ENGINE = {
     "C10": "E4: session commands (definitions, failures, modules, output "
            "streams, generator state, nested caller environments), failed "
            "calls repeated at once; two interpreters x A/B taggings; "
-           "fresh-replay cross-check",
+           "fresh-replay cross-check; every failing library call of the "
+           "call sweep (arity <= 2) run twice with an interpreter "
+           "fingerprint before, between and after",
     "C11": "E4 x digraphs on 2 and 3 modules + families on 4-5; 25 importer "
-           "commands per target module",
+           "commands per target module; bundled modules x sequences of <= 2 "
+           "requires (4 forms x 3 spellings) with evaluations counted at "
+           "the parser seam",
     "C12": "hash-permutation x construction-permutation product over 4 "
            "element pools; explicit paths + library calls discovered at run "
            "time; real PYTHONHASHSEED subprocess runs incl. syntax-tree "
            "renderings of the corpus",
     "C13": "every function x arity<=3 tuples from a 46-value pool (aliased "
-           "variants; 4-tuples for 4-parameter functions) + syntactic forms",
+           "variants; 4-tuples for 4-parameter functions) + syntactic forms; "
+           "results walked for pieces that are no language values",
     "C14": "level L (token stream, <=2 deviations) + level E (end to end) "
            "incl. spelling, literal/element parentheses, semicolons; level P "
            "(operand-level parentheses differential)",
@@ -62,10 +69,11 @@ ENGINE = {
            "forms",
     "C16": "(a) call sweep with before/after snapshots, result identity "
            "(top level and nested), operand snapshots of syntactic forms, "
-           "literal freshness, prototype writes; (b) E4 alias graph, 49 "
-           "operations",
+           "literal freshness, prototype writes, string results that are "
+           "an argument; (b) E4 alias graph, 49 operations",
     "C17": "every day + boundary days of the years + strides + seconds of "
-           "the day + differences to the second + text side",
+           "the day + differences to the second + text side (parsing and "
+           "formatting) + out-of-range day numbers",
     "C18": "all pairs of strings x 13 laws; replace triples; split2; "
            "interpolation templates; per-character case mapping",
     "C19": "lists <=3|4 over 7 elements; set algebra pairs; multiset "
@@ -74,7 +82,8 @@ ENGINE = {
     "C20": "token x follower x lead; token streams under <=2 deviations; "
            "planted faults x statement separators x (single-line / every "
            "single broken boundary / all boundaries broken), second file "
-           "name in the same process",
+           "name in the same process; error positions of every failing call "
+           "of the library sweep (arity <= 2)",
 }
 
 
